@@ -386,3 +386,124 @@ func e4OracleC05(r *e4Result) string {
 	}
 	return ""
 }
+
+// ---- C08
+
+// e4FoldSubs is the net effect of the application's accepted Subscribe/Unsubscribe calls.
+func e4FoldSubs(r *e4Result) map[string]int {
+	t := map[string]int{}
+	for _, q := range r.Reqs {
+		if q.Err != nil {
+			continue
+		}
+		switch q.Kind {
+		case "sub":
+			t[q.Tag] = q.Step.QoS
+			for _, f := range q.Step.Subs {
+				t[f.Filter] = f.QoS
+			}
+		case "unsub":
+			delete(t, q.Tag)
+			for _, f := range q.Step.Subs {
+				delete(t, f.Filter)
+			}
+		}
+	}
+	return t
+}
+
+func e4OracleC08(r *e4Result) string {
+	if r.Stuck {
+		return "the client is idle with requests undone: " + e4Undone(r)
+	}
+	// (2) no needless re-subscription
+	firstOK := 0
+	sessionPresent := map[int]bool{}
+	for _, e := range r.Log {
+		if e.Kind == "B" && e.Pkt != nil && e.Pkt.Type == rtConnAck && e.Pkt.Code == 0 {
+			if firstOK == 0 {
+				firstOK = e.Conn
+			}
+			sessionPresent[e.Conn] = e.Pkt.SessionPresent
+		}
+	}
+	lastClientPkt := map[int]int64{}
+	for _, e := range r.Log {
+		if e4Emitted(e) {
+			lastClientPkt[e.Conn] = e.Seq
+		}
+	}
+	ackConsumed := map[string]int64{} // request tag -> seq from which its SUBACK is known to have been received
+	for _, e := range r.Log {
+		if e.Kind == "B" && e.Pkt != nil && e.Pkt.Type == rtSubAck && e.Note != "" {
+			// consumed once the client wrote anything later on that connection
+			for _, l := range r.Log {
+				if l.Seq > e.Seq && l.Conn == e.Conn && e4Emitted(l) {
+					if _, ok := ackConsumed[e.Note]; !ok {
+						ackConsumed[e.Note] = l.Seq
+					}
+					break
+				}
+			}
+		}
+	}
+	for _, e := range r.Log {
+		if !e4Emitted(e) || e.Pkt.Type != rtSubscribe {
+			continue
+		}
+		mustNotResub := e.Conn == firstOK || (sessionPresent[e.Conn] && !r.Case.Cfg.AlwaysResub)
+		if !mustNotResub {
+			continue
+		}
+		tag := vTagOf(*e.Pkt)
+		why := "on the first connection"
+		if e.Conn != firstOK {
+			why = "although the broker kept the session (session present) and AlwaysResubscribe is off"
+		}
+		if tag == "" {
+			return fmt.Sprintf("SUBSCRIBE #%d on c%d %v belongs to no pending request: a re-subscription %s", e.Seq, e.Conn, *e.Pkt, why)
+		}
+		if s, ok := ackConsumed[tag]; ok && s <= e.Seq {
+			return fmt.Sprintf("SUBSCRIBE #%d on c%d %v repeats request %s whose SUBACK had already been received: a re-subscription %s", e.Seq, e.Conn, *e.Pkt, tag, why)
+		}
+	}
+	// (1) convergence
+	if r.Quiesced {
+		want := e4FoldSubs(r)
+		for f, q := range want {
+			if got, ok := r.Subs[f]; !ok || got != q {
+				return fmt.Sprintf("at quiescence the broker has %s; the application's calls amount to %s (filter %q: broker %v/%v, calls q%d)", e4SubsString(r.Subs), e4SubsString(want), f, got, ok, q)
+			}
+		}
+		for f := range r.Subs {
+			if _, ok := want[f]; !ok {
+				return fmt.Sprintf("at quiescence the broker still has filter %q subscribed, which the application's calls do not leave subscribed; broker %s, calls %s", f, e4SubsString(r.Subs), e4SubsString(want))
+			}
+		}
+	}
+	return ""
+}
+
+func e4SubsString(m map[string]int) string {
+	var ks []string
+	for k := range m {
+		ks = append(ks, k)
+	}
+	sortStrings(ks)
+	s := "{"
+	for i, k := range ks {
+		if i > 0 {
+			s += " "
+		}
+		s += fmt.Sprintf("%s:q%d", k, m[k])
+	}
+	return s + "}"
+}
+
+func sortStrings(a []string) {
+	for i := 1; i < len(a); i++ {
+		for j := i; j > 0 && a[j] < a[j-1]; j-- {
+			a[j], a[j-1] = a[j-1], a[j]
+		}
+	}
+}
